@@ -4,8 +4,11 @@ import (
 	"bytes"
 	"fmt"
 	"io"
+	"regexp"
+	"strconv"
 	"strings"
 	"sync"
+	"sync/atomic"
 	"time"
 
 	"github.com/tyler-sommer/stick"
@@ -27,9 +30,9 @@ var c18Tpls = map[string]string{
 	"a.html": "<p>{{ x }}</p>{% block b %}[{{ y }}]{% endblock %}{% block c %}({{ x|up }}){% endblock %}",
 	"b.js":   "var v = \"{{ x }}\"; f(\"{{ y }}\");",
 	"c.txt":  "plain {{ x }} and {{ y }}",
-	"d.css":  "p:before { content: \"{{ x }}\" } {% include 'c.txt' %}",
-	"e.html": "{% extends 'a.html' %}{% block b %}<{{ x }}>{{ parent() }}{% endblock %}",
-	"f.js":   "{% if x %}g('{{ y }}'){% endif %}{% for i in l %}{{ i }};{% endfor %}",
+	"d.css":  "p:before { content: \"{{ x }}\" } {% include inc %}",
+	"e.html": "{% extends base %}{% block b %}<{{ x }}>{{ parent() }}{% endblock %}",
+	"f.js":   "{% if x matches pat %}g('{{ y }}'){% endif %}{% for i in l %}{{ i }};{% endfor %}{{ x starts with pat ? 1 : 0 }}",
 }
 
 // c18ScenarioCap bounds the exploration of one scenario (a lock-based repair makes blocked
@@ -47,8 +50,23 @@ var c18Ops = []c18Op{
 	{false, "a.html"}, {false, "b.js"}, {false, "c.txt"}, {false, "d.css"}, {false, c18Inline}, {false, "e.html"}, {true, "b.js"}, {false, "f.js"}, {true, "a.html"},
 }
 
-func c18Ctx() map[string]stick.Value {
-	return map[string]stick.Value{"x": "<'\"&;\\", "y": "</script>", "l": []stick.Value{"<", "'"}}
+// c18Epoch makes template names and patterns unique per schedule / iteration ("a~17.html" is served like
+// "a.html"), so that every run takes the cold path of any cache keyed by name or pattern: a race or an
+// interference that only exists while a cache is being filled is not hidden by earlier runs in the process.
+var c18Epoch atomic.Int64
+
+func c18Name(name string, k int64) string {
+	if i := strings.Index(name, "."); i > 0 && !strings.Contains(name, "{") {
+		return name[:i] + "~" + strconv.FormatInt(k, 10) + name[i:]
+	}
+	return name + "{# " + strconv.FormatInt(k, 10) + " #}"
+}
+
+var c18Suffix = regexp.MustCompile(`~[0-9]+|\{# [0-9]+ #\}`)
+
+func c18Ctx(k int64) map[string]stick.Value {
+	return map[string]stick.Value{"x": "<'\"&;\\", "y": "</script>", "l": []stick.Value{"<", "'"},
+		"base": c18Name("a.html", k), "inc": c18Name("c.txt", k), "pat": "^<.{0," + strconv.FormatInt(k%997+1, 10) + "}"}
 }
 
 // c18Loader: map lookup, falling back to the name as source (inline templates); a point before each load.
@@ -56,7 +74,7 @@ type c18Loader struct{ s *core.Sched }
 
 func (l *c18Loader) Load(name string) (stick.Template, error) {
 	l.s.Point()
-	if src, ok := c18Tpls[name]; ok {
+	if src, ok := c18Tpls[c18Suffix.ReplaceAllString(name, "")]; ok {
 		return &memTpl{name, src}, nil
 	}
 	return &memTpl{name, name}, nil
@@ -100,27 +118,32 @@ func c18Env(kind int, s *core.Sched) *stick.Env {
 	return env
 }
 
-func c18Do(env *stick.Env, op c18Op, w io.Writer) (res string) {
+func c18Do(env *stick.Env, op c18Op, w io.Writer, k int64) (res string) {
 	defer func() {
 		if p := recover(); p != nil {
 			res = "PANIC " + panicInfo(p)
 		}
 	}()
+	name := c18Name(op.name, k)
+	norm := func(s string) string { return c18Suffix.ReplaceAllString(s, "") }
 	if op.parse {
-		tree, err := env.Parse(op.name)
+		tree, err := env.Parse(name)
 		if err != nil {
-			return "parse error: " + err.Error()
+			return "parse error: " + norm(err.Error())
 		}
-		return "tree: " + tree.Root().String()
+		return "tree: " + norm(tree.Root().String())
 	}
-	err := env.Execute(op.name, w, c18Ctx())
-	return "err=" + errStr(err)
+	err := env.Execute(name, w, c18Ctx(k))
+	if err != nil {
+		return "err=" + norm(err.Error())
+	}
+	return "err=<nil>"
 }
 
 func c18Solo(kind int, op c18Op) string {
 	env := c18Env(kind, nil)
 	w := &c18Writer{}
-	r := c18Do(env, op, w)
+	r := c18Do(env, op, w, c18Epoch.Add(1))
 	return r + " out=" + w.buf.String()
 }
 
@@ -136,11 +159,12 @@ func c18RunSchedule(kind int, ops []c18Op, src *core.Src) c18Outcome {
 	env := c18Env(kind, s)
 	res := make([]string, len(ops))
 	bodies := make([]func(), len(ops))
+	k := c18Epoch.Add(1)
 	for i, op := range ops {
 		i, op := i, op
 		bodies[i] = func() {
 			w := &c18Writer{s: s}
-			r := c18Do(env, op, w)
+			r := c18Do(env, op, w, k)
 			res[i] = r + " out=" + w.buf.String()
 		}
 	}
@@ -158,10 +182,7 @@ func c18Scenario(c core.Case) (kind, bound int, ops []c18Op) {
 
 func c18Sched(c core.Case) core.Result {
 	kind, bound, ops := c18Scenario(c)
-	solo := make([]string, len(ops))
-	for i, op := range ops {
-		solo[i] = c18Solo(kind, op)
-	}
+	var solo []string
 	var viol *core.Result
 	var schedules, trans, points int64
 	outcomes := map[string]bool{}
@@ -175,6 +196,11 @@ func c18Sched(c core.Case) core.Result {
 			src.Stop()
 		}
 		o := c18RunSchedule(kind, ops, src)
+		if solo == nil { // after the first schedule, so that the first schedule runs on cold caches
+			for _, op := range ops {
+				solo = append(solo, c18Solo(kind, op))
+			}
+		}
 		schedules++
 		trans += int64(len(o.trace))
 		points += int64(o.points)
@@ -232,18 +258,11 @@ func c18Sched(c core.Case) core.Result {
 // environment; under the race detector (halt_on_error) any report kills the worker and is a violation.
 func c18Race(c core.Case) core.Result {
 	kind, n, ops := c18Scenario(c)
-	solo := make([]string, len(ops))
-	for i, op := range ops {
-		solo[i] = c18Solo(kind, op)
-	}
 	env := c18Env(kind, nil)
 	var wg sync.WaitGroup
-	var mu sync.Mutex
-	bad := ""
 	iters := 12
-	if c.N[1] < 0 {
-		iters = 40
-	}
+	base := c18Epoch.Add(int64(iters)) - int64(iters)
+	results := make([][]string, n)
 	for g := 0; g < n; g++ {
 		g := g
 		wg.Add(1)
@@ -252,20 +271,23 @@ func c18Race(c core.Case) core.Result {
 			for it := 0; it < iters; it++ {
 				op := ops[(g+it)%len(ops)]
 				w := &c18Writer{}
-				r := c18Do(env, op, w) + " out=" + w.buf.String()
-				if r != solo[(g+it)%len(ops)] {
-					mu.Lock()
-					if bad == "" {
-						bad = fmt.Sprintf("goroutine %d iteration %d (%v) returned\n    %s\n  but alone it returns\n    %s", g, it, op, r, solo[(g+it)%len(ops)])
-					}
-					mu.Unlock()
-				}
+				// all goroutines use the same fresh names in the same iteration: they collide on cold cache keys
+				r := c18Do(env, op, w, base+int64(it)) + " out=" + w.buf.String()
+				results[g] = append(results[g], r)
 			}
 		}()
 	}
 	wg.Wait()
-	if bad != "" {
-		return core.Violation("interference-free-running", fmt.Sprintf("%d goroutines on a shared environment, ops %v: %s", n, ops, bad))
+	solo := make([]string, len(ops))
+	for i, op := range ops {
+		solo[i] = c18Solo(kind, op)
+	}
+	for g := range results {
+		for it, r := range results[g] {
+			if want := solo[(g+it)%len(ops)]; r != want {
+				return core.Violation("interference-free-running", fmt.Sprintf("%d goroutines on a shared environment, ops %v: goroutine %d iteration %d (%v) returned\n    %s\n  but alone it returns\n    %s", n, ops, g, it, ops[(g+it)%len(ops)], r, want))
+			}
+		}
 	}
 	r := core.Okay(true, "race-free")
 	r.Cnt = map[string]int64{"free_running_calls": int64(n * iters)}
